@@ -345,6 +345,12 @@ def gen_gate(run, key, modname, getter, obligation, what):
     return [what + ': ' + ' '.join(l for l in out.split('\n') if 'error' in l.lower())[:300] + ' regenerated=%s' % (str(res)[:300],)]
 
 
+def transfer_gate(run):
+    return gen_gate(run, 'translator_transfer', 'gen_transfer', 'table',
+                    'Gen.transferTable = C06.transferTable by rfl; transferBallot_is_loop, qAdvance_is_loop, contPred_mpls (lean/Props/C06Transfer.lean)',
+                    'transfer(ballot) of droop/rules/*.py, extracted, is no longer the table lean/Props/C06Transfer.lean ties to the model')
+
+
 def select_gate(run):
     return gen_gate(run, 'translator_select', 'gen_select', 'program',
                     'Gen.select = C09.selectProg by rfl; eligible_is_program, hopeful_is_program, elected_is_program, pending_is_program',
@@ -575,7 +581,7 @@ def C04(run):
 
 @prop('C06')
 def C06(run):
-    count_property(run, dict(rules=gen.GREGORY, keys=['C06', 'C06r'], proj=proj_C06, quick=5000, thorough=150000, extra_gate=formula_gate,
+    count_property(run, dict(rules=gen.GREGORY, keys=['C06', 'C06r'], proj=proj_C06, quick=5000, thorough=150000, extra_gate=lambda run: formula_gate(run) + transfer_gate(run),
                              families=['plain', 'chains', 'on_quota', 'big', 'sure_losers']))
 
 
